@@ -561,20 +561,32 @@ def arrayToks (cs : List (Cell R)) : Nat → List (List Char × List Char) → L
 /-- the polyhedron type the writer puts on every CELL_TYPES line -/
 def wPolyType : Nat := natOfDigits (strip wPolyLine)
 
-/-- `mesh_writer::write`, cell-data file: rebase, header, POINTS, coordinates, CELLS, CELL_TYPES, CELL_DATA -/
+/-- `POINTS n float` and the coordinates -/
+def pointsToks (F : Fmt R) (cs : List (Cell R)) : List Token :=
+  [.word kwPoints, .int (cs.map (fun c => c.nodes.length)).sum, .word kwFloat, .nl] ++ coordToks F 0 (cs.flatMap Cell.coords)
+
+/-- `CELLS n m` (m = sum of `cell_int_size` + number of cells) and one line per cell -/
+def cellsToks (cs : List (Cell R)) : List Token :=
+  [.nl, .nl, .word kwCells, .int cs.length, .int ((cs.map cellIntSize).sum + cs.length), .nl] ++ cellLines 0 cs
+
+/-- `CELL_TYPES n` and one polyhedron line per cell -/
+def typesToks (cs : List (Cell R)) : List Token :=
+  [.nl, .word kwCellTypes, .int cs.length, .nl] ++ cs.flatMap (fun _ => [Token.int wPolyType, Token.nl])
+
+/-- `CELL_DATA n`, `FIELD FieldData k` and the arrays (add_cell_data_arrays_to_mesh) -/
+def dataToks (cs : List (Cell R)) : List Token :=
+  [.nl, .word kwCellData, .int cs.length, .nl] ++ (tokenize wFieldKw ++ (Token.int cellArrays.length :: arrayToks cs 0 cellArrays))
+
+/-- the cell-data file of a list of cells that have no free slots -/
+def fileToks (F : Fmt R) (cs : List (Cell R)) : List Token :=
+  tokenize wHeader ++ (pointsToks F cs ++ (cellsToks cs ++ (typesToks cs ++ dataToks cs)))
+
+/-- `mesh_writer::write`, cell-data file: `cell::rebase` of every cell, then header, POINTS, coordinates
+    (refused when not finite), CELLS, CELL_TYPES, CELL_DATA -/
 def writeCells (F : Fmt R) (pop : List (Cell R)) : Except WErr (List Token) :=
   if pop.isEmpty then .error .emptyPopulation else
   let cs := pop.map rebase
-  let coords := cs.flatMap Cell.coords
-  if coords.any (fun x => !F.finite x) then .error .nonFinite else
-  .ok (tokenize wHeader
-    ++ [.word kwPoints, .int (cs.map (fun c => c.nodes.length)).sum, .word kwFloat, .nl]
-    ++ coordToks F 0 coords
-    ++ [.nl, .nl, .word kwCells, .int cs.length, .int ((cs.map cellIntSize).sum + cs.length), .nl]
-    ++ cellLines 0 cs
-    ++ [.nl, .word kwCellTypes, .int cs.length, .nl]
-    ++ cs.flatMap (fun _ => [Token.int wPolyType, Token.nl])
-    ++ ([.nl, .word kwCellData, .int cs.length, .nl] ++ tokenize wFieldKw ++ [.int cellArrays.length]
-        ++ arrayToks cs 0 cellArrays))
+  if (cs.flatMap Cell.coords).any (fun x => !F.finite x) then .error .nonFinite else
+  .ok (fileToks F cs)
 
 end Simu.Vtk
